@@ -70,6 +70,13 @@ func execC12(c *Case) {
 		ref, names, seqs := bigAlignment(r, r.Range(40, 250), r.Range(10, 40))
 		refTxt, aln := renderFasta([]string{"ref"}, []string{ref}, lay), renderFasta(names, seqs, lay)
 		run = func(cfg runCfg) result {
+			if opts.gobin != "" && cfg.jitter%2 == 0 {
+				args := []string{"snps", "-r", "{dir}/r.fa", "-q", "{dir}/a.fa"}
+				if kind == "snps-agg" {
+					args = append(args, "--aggregate")
+				}
+				return viaBinary(cfg, map[string]string{"r.fa": refTxt, "a.fa": aln}, args)
+			}
 			return safeRun(60*time.Second, func() (string, error) {
 				var out bytes.Buffer
 				err := snps.SNPs(strings.NewReader(refTxt), strings.NewReader(aln), false, kind == "snps-agg", 0, &out)
@@ -80,6 +87,9 @@ func execC12(c *Case) {
 		ref, names, seqs := bigAlignment(r, r.Range(40, 250), r.Range(10, 40))
 		refTxt, aln := renderFasta([]string{"ref"}, []string{ref}, lay), renderFasta(names, seqs, lay)
 		run = func(cfg runCfg) result {
+			if opts.gobin != "" && cfg.jitter%2 == 0 {
+				return viaBinary(cfg, map[string]string{"r.fa": refTxt, "a.fa": aln}, []string{"updown", "list", "-r", "{dir}/r.fa", "-q", "{dir}/a.fa"})
+			}
 			return safeRun(60*time.Second, func() (string, error) {
 				var out bytes.Buffer
 				err := updown.List(strings.NewReader(refTxt), strings.NewReader(aln), &out)
@@ -145,11 +155,33 @@ func execC12(c *Case) {
 		txt := samText("refx", L, all, true)
 		refTxt := renderFasta([]string{"refx"}, []string{ref}, lay)
 		run = func(cfg runCfg) result {
-			return safeRun(60*time.Second, func() (string, error) {
-				var out bytes.Buffer
-				err := sam.Variants(strings.NewReader(txt), strings.NewReader(refTxt), true, strings.NewReader(annTxt), annFmt, &out, -1, -1, false, 0, true, cfg.threads)
-				return out.String(), err
-			})
+			if opts.gobin == "" {
+				return safeRun(60*time.Second, func() (string, error) {
+					var out bytes.Buffer
+					err := sam.Variants(strings.NewReader(txt), strings.NewReader(refTxt), true, strings.NewReader(annTxt), annFmt, &out, -1, -1, false, 0, true, cfg.threads)
+					return out.String(), err
+				})
+			}
+			// every run in a process of its own (the binary): state kept in package-level variables does not carry over
+			tmpCounter++
+			dir := filepath.Join(opts.tmp, fmt.Sprintf("c12-%d-%d", os.Getpid(), tmpCounter))
+			os.MkdirAll(dir, 0755)
+			defer os.RemoveAll(dir)
+			os.WriteFile(filepath.Join(dir, "a.sam"), []byte(txt), 0644)
+			os.WriteFile(filepath.Join(dir, "r.fa"), []byte(refTxt), 0644)
+			os.WriteFile(filepath.Join(dir, "ann."+annFmt), []byte(annTxt), 0644)
+			os.Setenv("VERIF_JITTER_SEED", fmt.Sprint(cfg.jitter%100000))
+			os.Setenv("GOMAXPROCS", fmt.Sprint(cfg.gomaxprocs))
+			defer os.Unsetenv("VERIF_JITTER_SEED")
+			defer os.Unsetenv("GOMAXPROCS")
+			o, se, code, to := runCLI(60*time.Second, "", "sam", "variants", "-s", filepath.Join(dir, "a.sam"), "-r", filepath.Join(dir, "r.fa"), "-a", filepath.Join(dir, "ann."+annFmt), "--append-snps", "-t", fmt.Sprint(cfg.threads))
+			if to {
+				return result{status: "timeout"}
+			}
+			if code != 0 {
+				return result{status: "err:" + firstLine(se)}
+			}
+			return result{out: o, status: "ok"}
 		}
 	case "toma", "topa-dir", "topa-stdout", "samvariants", "samvariants-agg":
 		sv := samVarGen(r, "x", 3, false)
@@ -187,6 +219,9 @@ func execC12(c *Case) {
 		switch kind {
 		case "toma":
 			run = func(cfg runCfg) result {
+				if opts.gobin != "" && cfg.jitter%2 == 0 {
+					return viaBinary(cfg, map[string]string{"a.sam": txt}, []string{"sam", "toMultiAlign", "-s", "{dir}/a.sam", "-t", fmt.Sprint(cfg.threads)})
+				}
 				return safeRun(60*time.Second, func() (string, error) {
 					var out bytes.Buffer
 					err := sam.ToMultiAlign(strings.NewReader(txt), &out, -1, -1, -1, false, cfg.threads)
@@ -328,6 +363,34 @@ func execC12(c *Case) {
 			c.Set("gob", o)
 		}
 	}
+}
+
+// viaBinary runs one configuration in a process of its own (package-level state of the program does not carry over
+// from run to run as it does in-process), with the configuration's threads, GOMAXPROCS and jitter seed
+func viaBinary(cfg runCfg, files map[string]string, args []string) result {
+	tmpCounter++
+	dir := filepath.Join(opts.tmp, fmt.Sprintf("c12-%d-%d", os.Getpid(), tmpCounter))
+	os.MkdirAll(dir, 0755)
+	defer os.RemoveAll(dir)
+	for n, t := range files {
+		os.WriteFile(filepath.Join(dir, n), []byte(t), 0644)
+	}
+	a := make([]string, len(args))
+	for i, x := range args {
+		a[i] = strings.ReplaceAll(x, "{dir}", dir)
+	}
+	os.Setenv("VERIF_JITTER_SEED", fmt.Sprint(cfg.jitter%100000))
+	os.Setenv("GOMAXPROCS", fmt.Sprint(cfg.gomaxprocs))
+	defer os.Unsetenv("VERIF_JITTER_SEED")
+	defer os.Unsetenv("GOMAXPROCS")
+	o, se, code, to := runCLI(60*time.Second, "", a...)
+	if to {
+		return result{status: "timeout"}
+	}
+	if code != 0 {
+		return result{status: "err:" + firstLine(se)}
+	}
+	return result{out: o, status: "ok"}
 }
 
 func init() {
